@@ -183,80 +183,130 @@ def serde_strict(R, ctx):
 
 
 def filters(R, ctx):
+    """The generic rule serializer as a function from (properties, apply list, skip list) to the written document."""
+    from .. import peval
+    from ..peval import Enum, Struct, UNKNOWN, UNIT, ok
     rid = "C19.filters"
     lib = ctx.lib
-    R.rule(rid, "decision table of <dyn Rule as Serialize>::serialize over {no property?, apply list empty?, skip list empty?}: the bare rule-name "
-                "form is used only when all three are empty, and the apply_to_files / skip_files entries are emitted exactly when their own list is non-empty")
+    R.rule(rid, "<dyn Rule as Serialize>::serialize, evaluated from its typed tree against a recording serializer for every combination of "
+                "{no / two properties} x {apply list of 0, 1, 2 patterns} x {skip list of 0, 1, 2 patterns}: the bare rule-name string is written "
+                "only when all three are empty; otherwise one map with `rule`, `apply_to_files` / `skip_files` exactly when their own list is "
+                "non-empty (a single pattern as a string, several as a list, every pattern present) and every property, properties in key order "
+                "(the configuration fingerprint of C10 hashes this text), closed with end()")
     cands = [f for f in lib.fn_list if f["path"].endswith("as serde_core::ser::Serialize>::serialize") and "dyn rules::Rule" in f["path"] and thir.body_of(f)]
     if not R.require(rid, "anchor:serialize", len(cands) == 1, "", "%d candidates" % len(cands)):
         return
     fn = cands[0]
-    a = ctx.an.fa(fn["path"])
+    FP, RM = "utils::filter_pattern::FilterPattern", "rules::RuleMetadata"
+    rm = lib.adts.get(RM)
+    lists = [f["name"] for v in (rm["variants"] if rm else []) for f in v["fields"] if FP in f.get("tys", "")]
+    if not R.require(rid, "anchor:metadata-lists", len(lists) == 2, ctx.adt_where(RM) if rm else "", "filter lists of RuleMetadata: %s" % lists):
+        return
+    apply_f = [x for x in lists if "apply" in x] or lists[:1]
+    skip_f = [x for x in lists if x not in apply_f]
+    apply_f, skip_f = apply_f[0], skip_f[0]
 
-    def atom(e):
-        if e.get("k") == "Call" and e.get("fname") == "is_empty" and e["args"]:
-            o = {x[1] for x in a.origins(e["args"][0]) if x[0] != "#param"}
-            if "apply_to_filters" in o and "skip_filters" not in o:
-                return ("empty", "apply")
-            if "skip_filters" in o and "apply_to_filters" not in o:
-                return ("empty", "skip")
-        if e.get("k") == "Binary" and e.get("op") == "Eq":
-            # property_count == 0
-            names = {x.get("name") for x in thir.walk(e) if x.get("k") == "Var"}
-            lits = [x.get("v") for x in thir.walk(e) if x.get("k") == "Lit"]
-            if "0" in lits and any("count" in (n or "") or "len" in (n or "") for n in names):
-                return ("empty", "props")
-        if e.get("k") == "Var":
-            # a boolean local: follow its initialiser
-            for src, pre in a.env.get(e["var"], []):
-                if isinstance(src, dict) and src.get("k") in ("Logical", "Unary", "Call", "Binary"):
-                    return ("expr", id(src), src)
-        if e.get("k") == "Binary" and e.get("op") == "Eq":
-            return None
-        return None
+    def run_(props, A, S):
+        log = []
 
-    class I(absint.Interp):
-        def cond(self, e, path):
-            at = self.atom(e)
-            if isinstance(at, tuple) and at and at[0] == "expr":
-                return absint.Interp.cond(self, at[2], path)
-            return absint.Interp.cond(self, e, path)
+        def hook(pe, path, fname, args, node):
+            a0 = args[0] if args else None
+            q = lib.fn(path)
+            if q is not None and thir.body_of(q):
+                return NotImplemented  # a local helper that merely receives one of the abstract objects
+            if isinstance(a0, Struct) and a0.adt == "#Rule":
+                if fname == "serialize_to_properties":
+                    return Struct("#Props", {"items": [(k, "v_" + k) for k in props]})
+                if fname == "get_name":
+                    return "the_rule"
+                if fname == "metadata":
+                    return Struct(RM, {apply_f: [Struct(FP, {"original": x}) for x in A], skip_f: [Struct(FP, {"original": x}) for x in S]})
+                if fname == "has_properties":
+                    return bool(props)
+                return UNKNOWN
+            if isinstance(a0, Struct) and a0.adt == "#Props":
+                if fname == "len":
+                    return len(a0.fields["items"])
+                if fname == "is_empty":
+                    return not a0.fields["items"]
+                if fname in ("into_iter", "iter"):
+                    return peval.Iter(list(a0.fields["items"]))
+                return UNKNOWN
+            if isinstance(a0, Struct) and a0.adt == "#Ser":
+                if fname == "serialize_str":
+                    log.append(("str", args[1]))
+                    return ok("#done")
+                if fname == "serialize_map":
+                    return ok(Struct("#Map", {}))
+                if fname == "collect_map" and len(args) == 2:
+                    it = args[1].rest() if isinstance(args[1], peval.Iter) else args[1]
+                    if isinstance(it, list):
+                        for kv in it:
+                            log.append(("entry", kv[0], kv[1]))
+                        log.append(("end",))
+                        return ok("#done")
+                return UNKNOWN
+            if isinstance(a0, Struct) and a0.adt == "#Map":
+                if fname == "serialize_entry" and len(args) == 3:
+                    log.append(("entry", args[1], args[2]))
+                    return ok(UNIT)
+                if fname == "serialize_key" and len(args) == 2:
+                    log.append(("key", args[1]))
+                    return ok(UNIT)
+                if fname == "serialize_value" and len(args) == 2 and log and log[-1][0] == "key":
+                    log[-1] = ("entry", log[-1][1], args[1])
+                    return ok(UNIT)
+                if fname == "end":
+                    log.append(("end",))
+                    return ok("#done")
+                return UNKNOWN
+            return NotImplemented
+        pe = peval.PEval(lib, ctx.an, hook)
+        try:
+            v = pe.call_fn(fn, [Struct("#Rule", {}), Struct("#Ser", {})])
+        except peval.OutOfFuel:
+            v = UNKNOWN
+        return v, log, pe.unknown_reasons
 
-    def event(c):
-        if c.get("fname") == "serialize_str":
-            return "bare-name"
-        if c.get("fname") == "serialize_entry" and len(c["args"]) >= 2:
-            k = c["args"][1]
-            for x in thir.walk(k):
-                if x.get("k") == "Const" and x.get("def", "").endswith("APPLY_TO_FILTER_PROPERTY"):
-                    return "entry:apply"
-                if x.get("k") == "Const" and x.get("def", "").endswith("SKIP_FILTER_PROPERTY"):
-                    return "entry:skip"
-        return None
-
-    for pe in (True, False):
-        for ae in (True, False):
-            for se in (True, False):
-                fixed = {("empty", "props"): pe, ("empty", "apply"): ae, ("empty", "skip"): se}
-                it = I(atom, event, fixed)
-                try:
-                    paths = it.run(thir.body_of(fn))
-                except RuntimeError:
-                    paths = []
-                evsets = {frozenset(p.events) for p in paths}
-                key = "props_empty=%s,apply_empty=%s,skip_empty=%s" % (pe, ae, se)
-                want_bare = pe and ae and se
-                ok = bool(paths)
-                detail = []
-                for ev in evsets:
-                    if ("bare-name" in ev) != want_bare:
-                        ok = False; detail.append("bare-name form %s" % ("used" if "bare-name" in ev else "not used"))
-                    if not want_bare:
-                        if ("entry:apply" in ev) != (not ae):
-                            ok = False; detail.append("apply_to_files entry %s" % ("emitted" if "entry:apply" in ev else "missing"))
-                        if ("entry:skip" in ev) != (not se):
-                            ok = False; detail.append("skip_files entry %s" % ("emitted" if "entry:skip" in ev else "missing"))
-                R.ob(rid, "serialize|" + key, ok, ctx.where(fn), "; ".join(sorted(set(detail))) if detail else "events %s" % sorted(sorted(e) for e in evsets))
+    def norm(x):
+        if isinstance(x, peval.Iter):
+            x = x.rest()
+        return list(x) if isinstance(x, list) else x
+    n = 0
+    for props in ([], ["b", "a"]):
+        for A in ([], ["x"], ["x", "y"]):
+            for S in ([], ["s"], ["s", "t"]):
+                v, log, why = run_(props, A, S)
+                n += 1
+                key = "props_empty=%s,apply=%d,skip=%d" % (not props, len(A), len(S))
+                problems = []
+                done = isinstance(v, Enum) and v.variant == "Ok"
+                if not done:
+                    problems.append("serializer result not established (%s)" % "; ".join(why[:2]))
+                elif not props and not A and not S:
+                    if log != [("str", "the_rule")]:
+                        problems.append("expected the bare rule name, wrote %s" % log)
+                else:
+                    if any(x[0] == "str" for x in log):
+                        problems.append("bare-name form used although the rule carries properties/filters: they are lost")
+                    ent = [(x[1], norm(x[2])) for x in log if x[0] == "entry"]
+                    d = dict(ent)
+                    if len(d) != len(ent):
+                        problems.append("duplicate keys %s" % [k for k, _ in ent])
+                    if d.get("rule") != "the_rule":
+                        problems.append("`rule` entry missing")
+                    for name, lst in (("apply_to_files", A), ("skip_files", S)):
+                        want = None if not lst else (lst[0] if len(lst) == 1 else lst)
+                        got = d.get(name)
+                        if got != want and not (isinstance(want, str) and got == [want]):
+                            problems.append("%s entry %s (expected %s)" % (name, "missing" if got is None else "is %s" % (got,), want))
+                    pk = [k for k, _ in ent if k in props]
+                    if pk != sorted(props):
+                        problems.append("properties written as %s, expected all of them in key order %s" % (pk, sorted(props)))
+                    if ("end",) not in log:
+                        problems.append("map not closed with end()")
+                R.ob(rid, "serialize|" + key, not problems, ctx.where(fn), "; ".join(problems) if problems else "document as specified: %s" % (log,))
+    R.require(rid, "floor:states", n >= 18, ctx.where(fn), "%d states evaluated" % n)
 
 
 def collide(R, ctx):
